@@ -183,6 +183,10 @@ type hWorld struct {
 	Errs []error // Errs[k]: the distinct error object converter/target k returns when it fails
 
 	Funcs []*Func // built functions, index = spec ID
+
+	// FailFn, when set, overrides the specs' Fails bit at execution time
+	// (lets a history make a function fail in one call and succeed in the next).
+	FailFn func(id int) bool
 }
 
 func (w *hWorld) String() string {
@@ -347,7 +351,11 @@ func (w *hWorld) hBody(f hFuncSpec, recv []hRecv) (outs []interface{}, err error
 	for i, r := range recv {
 		ids[i] = r.ID
 	}
-	if f.HasErr && f.Fails {
+	fails := f.Fails
+	if w.FailFn != nil {
+		fails = w.FailFn(f.ID)
+	}
+	if f.HasErr && fails {
 		ex.Err = true
 		w.Log = append(w.Log, ex)
 		return nil, w.Errs[f.ID]
@@ -405,15 +413,12 @@ func (w *hWorld) hBuild(f hFuncSpec, opts ...Arg) (*Func, error) {
 			if err != nil {
 				return err
 			}
-			for j, l := range f.Out {
-				var dst *Value
-				if l.Name != "" {
-					dst = out.Named(l.Name)
-				} else {
-					dst = out.TypedSubtype(hType(l.T), l.Sub)
-				}
-				if dst != nil {
-					dst.Value = reflect.ValueOf(outs[j])
+			for j := range f.Out {
+				// the set keeps the declaration order; address the j-th value directly
+				// (Named/TypedSubtype are ambiguous when a named and a type-only value
+				// share type and subtype)
+				if j < len(out.values) {
+					out.values[j].Value = reflect.ValueOf(outs[j])
 				}
 			}
 			return nil
@@ -560,7 +565,7 @@ func (w *hWorld) hBuildAll() ([]Arg, bool) {
 //
 //	0 F-type  types {P0,P1,P2,I}, no names, no subtypes
 //	1 F-name  names {"",a,b}, types {P0,P1}, no subtypes
-//	2 F-sub   subtypes {"",s,t}, names {"",a}, type P0
+//	2 F-sub   subtypes {"",s,S} (subtypes are case sensitive), names {"",a}, type P0
 //	3 F-full  names {"",a,b}, types {P0,P1}, subtypes {"",s}
 //	4 F-iface names {"",a}, types {P0,P2,I}, no subtypes
 //	5 F-chain types {P0,P1,P2,P3,P4} (interchangeable: canonical first-use order is assumed), no names, no subtypes
@@ -568,7 +573,7 @@ func (w *hWorld) hBuildAll() ([]Arg, bool) {
 //	7 F-nsub  names {"",a,b}, types {P0,P1}, subtypes {"",s} on type P0 only... (= F-full with canonical type order)
 var hNamePool = [][]string{{""}, {"", "a", "b"}, {"", "a"}, {"", "a", "b"}, {"", "a"}, {""}, {""}, {"", "a", "b"}}
 var hTypePool = [][]int{{hTP0, hTP1, hTP2, hTI}, {hTP0, hTP1}, {hTP0}, {hTP0, hTP1}, {hTP0, hTP2, hTI}, {hTP0, hTP1, hTP2, hTP3, hTP4}, {hTP0, hTP1, hTP2}, {hTP0, hTP1}}
-var hSubPool = [][]string{{""}, {""}, {"", "s", "t"}, {"", "s"}, {""}, {""}, {"", "s", "t"}, {"", "s"}}
+var hSubPool = [][]string{{""}, {""}, {"", "s", "S"}, {"", "s"}, {""}, {""}, {"", "s", "S"}, {"", "s"}}
 
 // families whose types are interchangeable plain structs: labels are drawn in
 // canonical (first-use) order so that the solver prunes relabelled duplicates
@@ -626,4 +631,28 @@ func hUnambiguous(ls []hLabel) bool {
 		}
 	}
 	return true
+}
+
+// hResultIDs unpacks the pool values of a result: positional outputs directly,
+// a single (pointer to) marker struct output field by field.
+func hResultIDs(r Result) []hRecv {
+	var out []hRecv
+	for i := 0; i < r.Len(); i++ {
+		v := r.Out(i)
+		if t, id := hUnpack(v); t >= 0 {
+			out = append(out, hRecv{T: t, ID: id})
+			continue
+		}
+		rv := reflect.ValueOf(v)
+		for rv.IsValid() && rv.Kind() == reflect.Ptr {
+			rv = rv.Elem()
+		}
+		if rv.IsValid() && rv.Kind() == reflect.Struct {
+			for j := 1; j < rv.NumField(); j++ {
+				t, id := hUnpack(rv.Field(j).Interface())
+				out = append(out, hRecv{T: t, ID: id})
+			}
+		}
+	}
+	return out
 }
